@@ -21,7 +21,7 @@ def histories(rng, tier):
     hs = []
     reps = 8
     for n in range(0, 7):
-        for _ in range(6 if tier == "quick" else 30):
+        for _ in range(6 if tier == "quick" else 120):
             base = prep(rng, n) if rng.random() < 0.7 else [("raw", n, rand_small_state(rng, n))]
             full = (1 << n) - 1
             masks = [0, full, full | (1 << (n + 2)), 1 << (n + 1)]
